@@ -86,6 +86,14 @@ def configs(tier, seed):
                                delete=delete, k=1 if tier == "quick" else 2, stop={"max_num_trials_started": 5 if base != "pbt" else 6},
                                wait=(pi % 2 == 0), pop=2 if W == 2 else 3, max_exec=250 if tier == "quick" else 5000)
                     out.append(cfg)
+    # long runs (beyond the first bracket / with a full PBT population)
+    for kind in ("shb", "dehb", "pbt", "hb-promotion"):
+        for prof in (tunerx.PROFILES[0], tunerx.PROFILES[7]):
+            for W in (2, 3):
+                out.append(dict(kind=kind, speculative=False, W=W, R=4, mode="min", seed=seed, profile=prof, delete=True,
+                                mra=(kind == "pbt") or W == 2, ties=False, k=1 if tier == "quick" else 2,
+                                stop={"max_num_trials_started": 10}, wait=True, pop=3, loop_cap=400,
+                                max_exec=100 if tier == "quick" else 2000))
     # the same through LocalBackend's real shutil checkpoint copy / delete and marker files
     n = len(out)
     for i in range(0, n, 5 if tier == "quick" else 3):
